@@ -227,7 +227,10 @@ def read_var_def(line: str, var_type: str | None = None, fun_only: bool = False)
     else:
         trailing_line = line[len(var_type) :]
     var_type = var_type.upper()
-    trailing_line = trailing_line.split("!")[0]
+    # Remove the trailing comment: a "!" inside a character literal is not one
+    comm_ind = strip_strings(trailing_line, maintain_len=True).find("!")
+    if comm_ind >= 0:
+        trailing_line = trailing_line[:comm_ind]
     if len(trailing_line) == 0:
         return None
 
@@ -1188,7 +1191,10 @@ class FortranFile:
                 return ""
         else:
             if FRegex.FREE_OPENMP.match(line) is None:
-                line = line.split("!")[0]
+                # A "!" inside a character literal does not start a comment
+                comm_ind = strip_strings(line, maintain_len=True).find("!")
+                if comm_ind >= 0:
+                    line = line[:comm_ind]
         return line
 
     def find_word_in_code_line(
